@@ -67,10 +67,14 @@ def refsOf : List (String × Val) → List Loc
   | (_, .ref l) :: ss => l :: refsOf ss
   | (_, .imm _) :: ss => refsOf ss
 
-/-- `d[k] = v` on a dict-like slot list: overwrite in place, else append. -/
+def dropKey (k : String) : List (String × Val) → List (String × Val)
+  | [] => []
+  | (k', v) :: ss => if k' = k then dropKey k ss else (k', v) :: dropKey k ss
+
+/-- `d[k] = v` on a dict-like slot list: overwrite in place (keys are unique), else append. -/
 def slotSet : List (String × Val) → String → Val → List (String × Val)
   | [], k, v => [(k, v)]
-  | (k', v') :: ss, k, v => if k' = k then (k', v) :: ss else (k', v') :: slotSet ss k v
+  | (k', v') :: ss, k, v => if k' = k then (k', v) :: dropKey k ss else (k', v') :: slotSet ss k v
 
 /-- `d.update(new)`. -/
 def slotUpdate (init : List (String × Val)) : List (String × Val) → List (String × Val)
@@ -445,22 +449,28 @@ def copyEachWith (dc : Copier) : Heap → List (String × Val) → Option (Heap 
       | none => none
       | some (h2, ss') => some (h2, (k, v') :: ss')
 
-def dropKey (k : String) : List (String × Val) → List (String × Val)
+def immSlots : List (String × Val) → List (String × Val)
   | [] => []
-  | (k', v) :: ss => if k' = k then dropKey k ss else (k', v) :: dropKey k ss
+  | (k, .imm v) :: ss => (k, .imm v) :: immSlots ss
+  | (_, .ref _) :: ss => immSlots ss
 
 /-- The span handed to the constructor by `BaseLinker.copy` → `__init__`: `copy.deepcopy(base.span)` of the first
-    submodel, `[]` without submodels.  (It is overwritten by the `__dict__.update` that follows.) -/
-def linkerSpan (dc : Copier) (h : Heap) (subs : List (String × Val)) : Option (Heap × Val) :=
+    (already copied) submodel, `[]` without submodels.  Span labels are hashable, i.e. immutable values, so the deep
+    copy of a list span is a new list with the same labels.  (The entry is overwritten by the `__dict__.update`
+    that follows.) -/
+def linkerSpan (h : Heap) (subs : List (String × Val)) : Heap × Val :=
   match subs with
-  | [] => some (h ++ [⟨.list, []⟩], .ref h.length)
+  | [] => (h ++ [⟨.list, []⟩], .ref h.length)
   | (_, v) :: _ =>
     match getObj h v with
-    | none => none
+    | none => (h, .imm .none)
     | some o =>
-      match dc h [] ((o.slots.lookup "span").getD (.imm .none)) with
-      | none => none
-      | some (h1, _, sp) => some (h1, sp)
+      match getObj h ((o.slots.lookup "span").getD (.imm .none)) with
+      | some s => (h ++ [⟨s.kind, immSlots s.slots⟩], .ref h.length)
+      | none =>
+        match (o.slots.lookup "span").getD (.imm .none) with
+        | .imm i => (h, .imm i)
+        | .ref _ => (h, .imm .none)
 
 /-- `VectorContainer.copy` / `BaseLinker.copy` of the instance object `o` of class `cd`; returns the heap and the
     new `__dict__` (not yet allocated). -/
@@ -474,9 +484,8 @@ def copyInstWith (fix : Bool) (dc : Copier) (cd : ClassDesc) (h : Heap) (o : Obj
       match copyEachWith dc h d.slots with
       | none => none
       | some (h1, subs) =>
-        match linkerSpan dc (h1 ++ [⟨.dict, subs⟩]) subs with
-        | none => none
-        | some (h2, sp) =>
+        match linkerSpan (h1 ++ [⟨.dict, subs⟩]) subs with
+        | (h2, sp) =>
           match construct fix cd h2 sp (.ref h1.length) with
           | (h3, init) =>
             match copyEachWith dc h3 (dropKey "submodels" o.slots) with
